@@ -289,7 +289,10 @@ impl MqttShared {
         queues.waiters.clear();
 
         if let Some(cb) = self.on_publish_ack.take() {
-            for (idx, tx, _) in queues.inflight.drain(..) {
+            // callback may use the sink, release queues first
+            let inflight = std::mem::take(&mut queues.inflight);
+            drop(queues);
+            for (idx, tx, _) in inflight {
                 if tx.is_none() {
                     (*cb)(codec::PublishAck { packet_id: idx, ..Default::default() }, true);
                 }
@@ -475,19 +478,26 @@ impl MqttShared {
                 queues.inflight_ids.remove(&pkt.packet_id());
 
                 if pkt.is_match(tp) {
-                    if let Some(tx) = tx {
+                    let cb_pkt = if let Some(tx) = tx {
                         let _ = tx.send(pkt);
+                        None
                     } else {
-                        let cb = self.on_publish_ack.take().unwrap();
-                        (*cb)(pkt.publish(), false);
-                        self.on_publish_ack.set(Some(cb));
-                    }
+                        Some(pkt)
+                    };
 
                     // wake up queued request (receive max limit)
                     while let Some(tx) = queues.waiters.pop_front() {
                         if tx.send(()).is_ok() {
                             break;
                         }
+                    }
+
+                    if let Some(pkt) = cb_pkt {
+                        // callback may use the sink, release queues first
+                        drop(queues);
+                        let cb = self.on_publish_ack.take().unwrap();
+                        (*cb)(pkt.publish(), false);
+                        self.on_publish_ack.set(Some(cb));
                     }
                     Ok(())
                 } else {
